@@ -27,13 +27,16 @@ def main():
     rec = {"id": sid, "source": src}
     try:
         meta = json.load(open(os.path.join(src, "meta.json")))
-        rec["property"] = meta.get("property")
-        rec["summary"] = meta.get("summary")
+        rec["property"] = meta.get("property") or meta.get("breaks_property")
+        rec["summary"] = meta.get("summary") or meta.get("what")
         rec["needs"] = meta.get("needs")
         shutil.copy(os.path.join(src, "demo.rs"), os.path.join(wt, "tests", "zz_demo.rs"))
         rc, out = sh("cargo test --offline --test zz_demo 2>&1 | tail -5", cwd=wt, env=env)
         rec["demo_clean_passes"] = "test result: ok" in out
         patch = os.path.abspath(os.path.join(src, 'patch.diff'))
+        if os.path.exists(os.path.join(src, 'patch_head.diff')):
+            patch = os.path.abspath(os.path.join(src, 'patch_head.diff'))     # the change rebased onto the current HEAD
+            rec["used_patch"] = "patch_head.diff"
         rc, out = sh(f"git apply {patch}", cwd=wt)
         if rc != 0 and os.environ.get("SEED_BASE"):
             # the patch was written against an older HEAD and a later fix commit touched the same lines: take the touched
@@ -66,9 +69,15 @@ def main():
         dst = f"/verif/seeded/{sid}"
         os.makedirs(dst, exist_ok=True)
         for f in ("patch.diff", "demo.rs"):
-            if os.path.exists(os.path.join(src, f)):
+            if os.path.exists(os.path.join(src, f)) and os.path.abspath(src) != os.path.abspath(dst):
                 shutil.copy(os.path.join(src, f), os.path.join(dst, f))
-        m = {"breaks_property": rec.get("property"), "what": rec.get("summary"), "needs": rec.get("needs"),
+        old = {}
+        try:
+            old = json.load(open(os.path.join(dst, "meta.json")))
+        except (OSError, ValueError):
+            pass
+        m = {"base_commit": old.get("base_commit"), "patch_head": old.get("patch_head"), "used_patch": rec.get("used_patch", "patch.diff"),
+             "breaks_property": rec.get("property") or old.get("breaks_property"), "what": rec.get("summary"), "needs": rec.get("needs"),
              "confirmed": {k: rec.get(k) for k in ("applies", "demo_clean_passes", "demo_fails_with_change", "suite_passes_with_change")},
              "ran": "tools/seedtest.py: scratch worktree of /repo HEAD; demo as tests/zz_demo.rs clean and with the change; cargo test --offline with the change; "
                     "/verif/check <id> (quick) for " + " ".join(props) + " with VERIF_REPO pointing at the changed worktree",
